@@ -31,6 +31,46 @@ def corpus(thorough):
     out += c06.gen((1,), (1, 2) + ((4,) if thorough else ()), (None,), (3,), ['mix'], ['default'], reps=(1,))[:24]
     out += c16.gen((1,), (2,), [(3, 5)], ['dataset_before', 'pervar_value'], ['redef_add'], (0, 1))
     out += meta_programs()
+    out += gen_division(thorough)
+    return out
+
+
+def gen_division(thorough=False):
+    """the same logical writes (three new records of a record variable) divided among the processes in every way, including processes that
+    get nothing: collective blocking puts in which a process without work passes a zero-length request, and nonblocking puts completed by one
+    wait_all in which a process without work posts nothing; afterwards every process reports the record count and reads everything back"""
+    from engine.model import data as D
+    out = []
+    dims = [('t', None), ('x', 2)]; vars_ = [('r', D.NC_INT, [0, 1]), ('f', D.NC_INT, [1])]
+    for np in (2, 3) + ((4,) if thorough else ()):
+        for assign in itertools.product(range(np), repeat=3):
+            if np > 2 and len(set(assign)) == np: continue          # every process has work: covered by np=2 and the other corpus programs
+            for mode in ('iput', 'put'):
+                s = S.Script('DIV-np%d-%s-%s' % (np, ''.join(map(str, assign)), mode), np, 1, dims, vars_)
+                s.put('*', 1, form='var', coll=1, tag=40)
+                if mode == 'put':
+                    for k, rk in enumerate(assign):
+                        for r in range(np):
+                            if r == rk: s.put(r, 0, [k, 0], [1, 2], None, form='vara', coll=1, tag=10 + k)
+                            else: s.put(r, 0, [0, 0], [0, 0], None, form='vara', coll=1, tag=20 + k)
+                else:
+                    posted = []
+                    for k, rk in enumerate(assign):
+                        ln, idx, vals = s.put(rk, 0, [k, 0], [1, 2], None, form='vara', nb='i', req=k, tag=10 + k, update=False)
+                        posted.append((rk, k, idx, vals))
+                    for r in range(np):
+                        mine = [k for (rk, k, _, _) in posted if rk == r]
+                        s.op(r, 'wait', f=0, ids=['q%d' % k for k in mine] if mine else None, all=1, num=len(mine))
+                    for (rk, k, idx, vals) in posted: s.model.put_idx(0, idx, vals)
+                ln = s.op('*', 'inq_unlimlen', f=0)
+
+                def chk(o, rank, ln=ln):
+                    if o.rc == 0 and int(o.get('len', -1)) != 3:
+                        return (('numrecs', 'inq_unlimlen', 'after divided writes'), 'line %d rank %d: record count %s after three records were written, expected 3' % (ln, rank, o.get('len')))
+                s.add_expect(ln, chk)
+                s.get_all('*', 0, coll=1)
+                s.finish()
+                out.append(s)
     return out
 
 
@@ -162,7 +202,7 @@ def main(tier=None):
                 ck.violation(('hint_not_in_force', 'inq_file_info', k), c.text(), '%s: requested %s=%s, library reports %s' % (c.name, k, v, got))
     ck.cov['distinct_nontrivial'] = len(ck.outcomes)
     ck.cov['configurations'] = len(combos); ck.cov['programs'] = len(base)
-    ck.cov['rule'] = ('corpus of %d programs drawn from the C01/C02/C06/C16 generators (np 1-4) run under the baseline and under every single deviation%s of: alignment hints, nc_ibuf_size=1, nc_in_place_swap, hash sizes 1/2, '
+    ck.cov['rule'] = ('corpus of %d programs drawn from the C01/C02/C06/C16 generators, name-table programs and the work-division family (three record appends assigned to 2-3 (thorough 4) processes in every way, idle processes post nothing / pass zero-length requests) (np 1-4) run under the baseline and under every single deviation%s of: alignment hints, nc_ibuf_size=1, nc_in_place_swap, hash sizes 1/2, '
                       'collective header I/O, intra-node aggregation 1/2, safe mode, PNETCDF_HINTS form, header chunk 36; every run is checked against the reference model and, against the baseline run of the same program, for identical return '
                       'codes, read buffers and decoded logical file content; effective hints reported by inq_file_info must be the requested ones' % (len(base), ' and every pair of deviations' if thorough else ''))
     ck.sample(runs[0][2].case.text()[:1200])
